@@ -19,3 +19,4 @@ echo "repairs: $(grep -c ALL-OK /tmp/regress.repairs.out) silent of $(ls -d repa
 tools/sweep.sh auto seeded/*/patch.diff mutants/*.diff > /tmp/regress.detect.out 2>&1
 echo "sensitivity: $(grep -c '=1\[' /tmp/regress.detect.out) detected of $(grep -c patch.diff /tmp/regress.detect.out | cat) + $(ls mutants/*.diff | wc -l) mutants; not detected:"
 grep -v '=1\[' /tmp/regress.detect.out
+rm -rf "${GODICHECK_SWEEP_CACHE:-/tmp/godicheck-sweep-cache}"
